@@ -30,7 +30,7 @@ PROPS["C18"] = {
     "level_note": "Trusted: Lean kernel, allowed axioms, hand transcription validated by correspondence.",
     "trusted": ["Model/Aac.lean hand transcription of aac/aac.go, aac/adts.go", "Model/Esds.lean hand transcription of mp4/esds.go, mp4/descriptors.go (sticky-error slice reader, uint64/byte wraps of the size coding, signed int(size) arithmetic)"],
     "extra_props": ["C18b"],
-    "unmodelled": ["mp4/audiosamplentry.go (the mp4a box around the esds) and TrakBox.SetAACDescriptor plumbing: direct oracle only", "CreateEsdsBox with a decoder configuration above 104 bytes (one-byte size fields wrap; outside the AudioSpecificConfig domain, whose encodings are at most 10 bytes: theorem asc_length)"],
+    "unmodelled": ["mp4/audiosamplentry.go (the mp4a box around the esds) and TrakBox.SetAACDescriptor plumbing: direct oracle only", "CreateEsdsBox with a decoder configuration above 104 bytes is outside the round-trip theorems (its one-byte descriptor size fields wrap, createEsds_wf needs <= 104; the AudioSpecificConfig domain stays below: theorem asc_length); the model transcribes the wrap and is compared with the code there too (esds.create up to 130 bytes here, 0..131 / around 2^14 under C02, where Size() = bytes written = header field is proved for every length: Props/C02b.lean)"],
     "partial": [],
     "assumptions": [],
 }
@@ -69,15 +69,15 @@ PROPS["C08"] = {
     "assumptions": ["ranges lie inside the mdat payload (the property's 'valid' ranges)"],
 }
 
-_BOX_UNMODELLED = ["boxes without a layout term (skeleton-only): the containers outside Model/Tree.lean (meta, ilst, tref, the audio sample entries - whose two decoders differ on inputs neither reproduces exactly, so one model function cannot answer for both -, stpp, evte, wvtt cue boxes) and avcC/hvcC, esds descriptors, senc, sgpd, uuid, mdat, elng and `url ` (layout chosen by look-ahead on the payload), the tref child types (count = payload length / 4), colr/tfra/tlou/alou/dec3/silb/ssix (partly reserved bit fields or size-dependent acceptance), ilst/data (known finding), meta, trep, stpp/wvtt entries: covered by the direct oracle (four code paths, masks from the committed list) only",
+_BOX_UNMODELLED = ["boxes without a layout term (skeleton-only): the containers outside Model/Tree.lean (meta, ilst, tref, the audio sample entries - whose two decoders differ on inputs neither reproduces exactly, so one model function cannot answer for both -, stpp, evte, wvtt cue boxes) and avcC/hvcC, senc, sgpd, uuid, mdat, elng and `url ` (layout chosen by look-ahead on the payload), the tref child types (count = payload length / 4), colr/tfra/tlou/alou/dec3/silb/ssix (partly reserved bit fields or size-dependent acceptance), ilst/data (known finding), meta, trep, stpp/wvtt entries: covered by the direct oracle (four code paths, masks from the committed list) only; the esds box has no layout term either but its own model (Model/Esds.lean, ops esds.dec / esds.rt / esds.create), the mp4a / enca entries around it are direct oracle only",
                    "Info text", "File-level top loops (direct oracle on whole files, both decoders, both encoders, both modes)"]
 PROPS["C01"] = {
     "level": "proof",
     "technique": "Lean 4 proof (generic layout DSL: encode∘decode = id outside computed don't-care positions, fixed point) + model-vs-code correspondence on every box + committed don't-care list",
-    "level_text": "Generic theorems over the layout DSL (lean/Mp4ff/Model/Layout.lean) hold for every layout and every byte string; the 64 hand-modelled box layouts (Model/Boxes.lean) are tied to the Go decoders/encoders by the box.rt correspondence (accept/reject, Size(), re-encoded bytes) on every box of the repository's media and their structured mutations; all registered types and whole files go through the direct oracle with the committed don't-care list. Nesting (Props/C01b.lean on Model/Tree.lean, the transcription of DecodeContainerChildren[SR] / EncodeContainer / the AddChild methods of the 15 plain containers incl. MoovBox.AddChild's trak placement, edts/traf acceptance, the child-size cross check; and the containers with a fixed-syntax prefix: stsd and dref (full box + entry count that must equal the number of children) and the eight visual sample entries avc1 avc3 hvc1 hev1 encv av01 vp08 vp09 (78 bytes incl. the counted compressor name and its padding); a box whose type is not in the decoder registry REGENERATED from mp4/box.go on every run (Generated.decoderKeys) is an UnknownBox and is kept verbatim): an accepted container re-encodes to exactly its input length (container_length), its header field equals the bytes written at every level (header_field), and the re-encoded tree equals the input outside the leaves' don't-care positions shifted to their place (lossless, no moov reordering on the way); fuel sufficiency (fuel_mono, roundTripTree_stable). Tie: op tree.rt on every plain container of the repository's media whose leaves are modelled and on trees composed from model-generated leaves (box.gen, Model/BoxGen.lean: boxes drawn from the layout terms themselves, so every flag / version / count shape the model allows reaches the four Go code paths).",
+    "level_text": "Generic theorems over the layout DSL (lean/Mp4ff/Model/Layout.lean) hold for every layout and every byte string; the 64 hand-modelled box layouts (Model/Boxes.lean) are tied to the Go decoders/encoders by the box.rt correspondence (accept/reject, Size(), re-encoded bytes) on every box of the repository's media and their structured mutations; all registered types and whole files go through the direct oracle with the committed don't-care list. Nesting (Props/C01b.lean on Model/Tree.lean, the transcription of DecodeContainerChildren[SR] / EncodeContainer / the AddChild methods of the 15 plain containers incl. MoovBox.AddChild's trak placement, edts/traf acceptance, the child-size cross check; and the containers with a fixed-syntax prefix: stsd and dref (full box + entry count that must equal the number of children) and the eight visual sample entries avc1 avc3 hvc1 hev1 encv av01 vp08 vp09 (78 bytes incl. the counted compressor name and its padding); a box whose type is not in the decoder registry REGENERATED from mp4/box.go on every run (Generated.decoderKeys) is an UnknownBox and is kept verbatim): an accepted container re-encodes to exactly its input length (container_length), its header field equals the bytes written at every level (header_field), and the re-encoded tree equals the input outside the leaves' don't-care positions shifted to their place (lossless, no moov reordering on the way); fuel sufficiency (fuel_mono, roundTripTree_stable). Tie: op tree.rt on every plain container of the repository's media whose leaves are modelled and on trees composed from model-generated leaves (box.gen, Model/BoxGen.lean: boxes drawn from the layout terms themselves, so every flag / version / count shape the model allows reaches the four Go code paths). The esds box (Props/C01c.lean on Model/Esds.lean, the transcription of mp4/esds.go + mp4/descriptors.go): every accepted payload is re-encoded bit for bit up to the end of the ES descriptor - descriptor order at every level (the SLConfig slot is only taken by the descriptor directly after the DecoderConfig), every size-field length, unknown tags and unknown trailing data - the only normalisation being the committed trailing-dropped one (esds_reencode_exact); decode(encode e) = e on well-formed trees. Tie: ops esds.dec / esds.rt on descriptor trees with optional / unknown descriptors at every position (before / between / after the DecoderConfig and SLConfig descriptors, inside the DecoderConfig around its DecSpecificInfo) in minimal, 4-byte padded and mixed size-field forms, and on random descriptor trees; the same boxes alone, in mp4a and in stsd > mp4a through the direct oracle.",
     "level_note": "Trusted: Lean kernel, allowed axioms, hand transcription of layouts validated by correspondence; unmodelled box types are covered by the direct oracle only (listed in the evidence).",
-    "extra_props": ["C01b"],
-    "trusted": ["Model/Layout.lean + Model/Boxes.lean: layout terms hand-transcribed from mp4/<box>.go for 64 box types, validated by the box.rt correspondence", "Model/Tree.lean: hand transcription of mp4/container.go and the plain containers' decoders / AddChild methods, validated by the tree.rt correspondence", "Model/BoxGen.lean (generator; no theorem depends on it: what it emits is filtered through the model's own roundTrip)", "spec/C01-dontcare.json (committed list), audited against the model and the code"],
+    "extra_props": ["C01b", "C01c"],
+    "trusted": ["Model/Layout.lean + Model/Boxes.lean: layout terms hand-transcribed from mp4/<box>.go for 64 box types, validated by the box.rt correspondence", "Model/Tree.lean: hand transcription of mp4/container.go and the plain containers' decoders / AddChild methods, validated by the tree.rt correspondence", "Model/BoxGen.lean (generator; no theorem depends on it: what it emits is filtered through the model's own roundTrip)", "Model/Esds.lean hand transcription of mp4/esds.go, mp4/descriptors.go, validated by the esds.dec / esds.rt correspondence", "spec/C01-dontcare.json (committed list), audited against the model and the code"],
     "unmodelled": _BOX_UNMODELLED,
     "partial": ["field-level model covers 64 of the 134 registered box types; the rest are exercised by the direct oracle"],
     "assumptions": [],
@@ -85,9 +85,10 @@ PROPS["C01"] = {
 PROPS["C02"] = {
     "level": "proof",
     "technique": "Lean 4 proof (box tree: Size = length of encoding = header field, container = header + children; layout DSL size) + model-vs-code correspondence + regenerated source constants",
-    "level_text": "Theorems in Props/C02.lean hold for every box tree (mutual structural induction); per-box sizes are tied by the box.rt correspondence (Go Size() vs model size on every case) and the direct oracle checks Size() before/after, bytes written, every header size field (independent box walker), encode twice with Info in between, io.Writer vs SliceWriter, on boxes, fragments, segments, init segments and files.",
+    "level_text": "Theorems in Props/C02.lean hold for every box tree (mutual structural induction); per-box sizes are tied by the box.rt correspondence (Go Size() vs model size on every case) and the direct oracle checks Size() before/after, bytes written, every header size field (independent box walker), encode twice with Info in between, io.Writer vs SliceWriter, on boxes, fragments, segments, init segments and files. The esds box (Props/C02b.lean on Model/Esds.lean): a descriptor size field is written in exactly sizeFieldSizeMinus1+1 bytes whatever its value, so Encode writes Size() bytes and the header carries that number for EVERY descriptor tree, in particular for CreateEsdsBox with a decoder configuration of any length (created_written; above 104 bytes the one-byte descriptor size fields wrap, the sizes still agree). Tie: esds.create on configurations of 0..131 bytes, around 2^14 and larger, esds.dec / esds.rt on descriptor trees in every size-field form; the built boxes (alone, in stsd > mp4a, in an init segment, with CreateRawDescriptor children of every size-field length) also go through the built-structure oracle (Size() before / after, Encode, EncodeSW exact and with room to spare, header fields).",
     "level_note": "Trusted: Lean kernel, allowed axioms, transcription validated by correspondence.",
-    "trusted": ["Model/Layout.lean + Model/Boxes.lean: layout terms hand-transcribed from mp4/<box>.go for 64 box types, validated by the box.rt correspondence", "spec/C01-dontcare.json (committed list), audited against the model and the code"],
+    "extra_props": ["C02b"],
+    "trusted": ["Model/Layout.lean + Model/Boxes.lean: layout terms hand-transcribed from mp4/<box>.go for 64 box types, validated by the box.rt correspondence", "Model/Esds.lean hand transcription of mp4/esds.go, mp4/descriptors.go (Size / SizeSize / writeDescriptorSize / CreateEsdsBox), validated by the esds.create / esds.rt correspondence", "spec/C01-dontcare.json (committed list), audited against the model and the code"],
     "unmodelled": _BOX_UNMODELLED,
     "partial": [],
     "assumptions": [],
